@@ -18,7 +18,7 @@ BOUNDS = {'quick': {'scripts_per_list': '1..3 (hand-off lemma), 2 (program explo
                     'call-stack limit symbolic', 'program_exploration': '13 witness programs x 7 lock templates (symbolic push data) '
                     'and locks of 2 arbitrary bytes'},
           'thorough': {'scripts_per_list': '1..4', 'summary': 'as quick', 'limits': 'as quick',
-                       'program_exploration': '13 witness programs x 7 lock templates and locks of 3 arbitrary bytes'}}
+                       'program_exploration': '13 witness programs x 7 lock templates and locks of 3 arbitrary bytes whose first byte is outside 28..31 and 72..75'}}
 OUTSIDE = ['lists of more than 4 scripts (the hand-off step is the same for every position)',
            'arbitrary lock byte strings longer than 3 bytes in the end-to-end exploration (covered by the inductive lemmas)']
 ASSUMPTIONS = ['P2 summary of a script run: arbitrary bounded stack effect, byte-keyed cache writes, optional RETURN '
@@ -277,7 +277,9 @@ def _p_e2e(tier):
     else:
         out += [{'w': w, 'l': ['bytes', 1]} for w in range(len(WITNESSES))]
         out += [{'w': w, 'l': ['bytes', 2], 'split': [i, 4]} for w in range(len(WITNESSES)) for i in range(4)]
-        out += [{'w': 1, 'l': ['bytes', 3], 'split': [i, 64]} for i in range(64)]
+        # 3-byte locks: first bytes 28..31 (OP_COPY with a symbolic count, hashes) and 72..75 (signing instructions) do not finish
+        # within an hour and are left out (stated in BOUNDS)
+        out += [{'w': 1, 'l': ['bytes', 3], 'split': [i, 64]} for i in range(64) if i not in (7, 18)]
     return out
 
 
